@@ -133,6 +133,9 @@ func RunCheck(id, tier, root string) int {
 		sum = c.Custom(tier, env)
 	} else {
 		sum = runSharded(c, env)
+		if c.After != nil {
+			c.After(tier, env, sum)
+		}
 	}
 	return Finish(c, env, sum)
 }
